@@ -659,3 +659,33 @@ Proof.
   exists m. split; auto. rewrite map_rev. apply -> in_rev. auto.
 Qed.
 End Paint3.
+
+(* the first phase never panics: the queue is non-empty when popped and everything queued is in the graph *)
+Lemma paint_step_no_panic o first others s :
+  PInv o first others s -> paint_step o s <> Some Panic.
+Proof.
+  intros I. unfold paint_step.
+  match goal with |- (if ?b then _ else _) <> _ => destruct b eqn:E end; [|discriminate].
+  destruct (heap_pop (p_q s)) as [[[info cid] q1]|] eqn:Pop.
+  - assert (Hin : In (info, cid) (p_q s)).
+    { eapply Permutation_in; [symmetry; apply heap_pop_perm; eauto|]. left; auto. }
+    destruct (pi_q _ _ _ _ I info cid Hin) as [Hd _]. unfold in_dom in Hd.
+    destruct (g_get (p_g s) cid) as [[c d]|]; [|contradiction].
+    match goal with |- context [let '(g1, out1) := ?x in _] => destruct x as [g1 out1] end.
+    destruct (paint_parents _ _ _ _ _). discriminate.
+  - apply heap_pop_none in Pop. rewrite Pop in E. cbn in E. discriminate.
+Qed.
+
+Theorem paint_no_panic o first others fuel g :
+  graph_ok o g -> (forall i, fl g i = f_empty) ->
+  paint_down_to_common fuel o g first others <> Panic.
+Proof.
+  intros Hok Hemp. unfold paint_down_to_common.
+  assert (H : forall fuel s, PInv o first others s -> paint_loop fuel o s <> Panic).
+  { induction fuel0 as [|f IH]; intros s I; cbn [paint_loop]; [discriminate|].
+    destruct (paint_step o s) as [[s1|e| |]|] eqn:St; try discriminate.
+    - apply IH. eapply paint_step_inv; eauto.
+    - exfalso. eapply paint_step_no_panic; eauto. }
+  specialize (H fuel _ (paint_init_inv o first others g Hok Hemp)).
+  destruct (paint_loop fuel o (paint_init o g first others)); try discriminate. congruence.
+Qed.
